@@ -10,7 +10,7 @@ func init() {
 		Run: func(c *Ctx) {
 			c.Do("C19.a", "L9 frame grammar agreement", 12, func() { clFrameGrammar(c); clReaderVersionAndSingleStream(c) })
 			c.Do("C19.b", "L9 checksum operand agreement", 8, func() { clChecksumOperands(c) })
-			c.Do("C19.c", "L1+L2 terminator symmetry", 5, func() { clChecksumSampledBeforeClose(c); clDecodeItemDiscipline(c) })
+			c.Do("C19.c", "L1+L2 terminator symmetry", 5, func() { clChecksumSampledBeforeClose(c); clDecodeItemDiscipline(c); clTerminatorAlways(c) })
 			c.Do("C19.d", "L9 KV helpers agree", 5, func() { clKVHelpers(c) })
 		},
 	})
